@@ -1,4 +1,4 @@
-from .checks import deps, pipeline
+from .checks import deps, pipeline, version
 
 CHECKS = {
     "C05": lambda tier: deps.run_property("C05", tier),
@@ -6,4 +6,5 @@ CHECKS = {
     "C07": lambda tier: deps.run_property("C07", tier),
     "C10": lambda tier: pipeline.run_c10(tier),
     "C16": lambda tier: deps.run_c16(tier),
+    "C18": lambda tier: version.run_c18(tier),
 }
